@@ -311,6 +311,7 @@ PROPS["C14"] = {
     "legs": [
         {"test": "TestC14Positions", "kind": "enum", "quick": {"shards": 1}, "thorough": {"shards": 1}},
         {"test": "TestC14Matrix", "kind": "enum", "quick": {"shards": 1}, "thorough": {"shards": 1}},
+        {"test": "TestC14Forms", "kind": "rapid", "quick": {"checks": 6000, "shards": 2}, "thorough": {"checks": 200000, "shards": 4}},
         {"test": "TestC14Mutants", "kind": "rapid", "quick": {"checks": 12000, "shards": 3}, "thorough": {"checks": 400000, "shards": 8}},
         {"test": "TestC14WellTyped", "kind": "rapid", "quick": {"checks": 12000, "shards": 3}, "thorough": {"checks": 400000, "shards": 8}},
     ],
